@@ -717,6 +717,28 @@ func init() {
 				r.AddPart(map[string]interface{}{"engine": "ENUM", "name": "c13-http", "read_sequences": hr.Sequences, "reads": hr.Reads})
 			}
 		}
+		// identifiers on their way through jobs that talk HTTP (transform endpoint with and without context support,
+		// a source that re-binds a prefix between runs)
+		{
+			pl := &engine.Pool{N: 1, Args: []string{"worker", "http-peer-ns"}, Timeout: 300 * time.Second}
+			ho := pl.Do([]json.RawMessage{json.RawMessage(`{}`)}, nil)
+			var hr struct {
+				Cases int                `json:"cases"`
+				Viol  []engine.Violation `json:"viol"`
+				Err   string             `json:"err"`
+			}
+			if ho[0].Err != "" || json.Unmarshal(ho[0].Out, &hr) != nil || hr.Err != "" {
+				r.Cap("http-peer-ns failed: " + ho[0].Err + " " + hr.Err)
+			} else {
+				for _, v := range hr.Viol {
+					v.Replay = map[string]interface{}{"worker": []string{"worker", "http-peer-ns"}}
+					r.AddViolation(v)
+				}
+				r.Evaluations += hr.Cases
+				r.Traces += hr.Cases
+				r.AddPart(map[string]interface{}{"engine": "ENUM", "name": "http-peer-ns", "cases": hr.Cases})
+			}
+		}
 		// SEQ
 		var alpha []VOp
 		for n := range nsSets {
